@@ -15,6 +15,11 @@
   srv.reply B hdr keys=[id:key,…] cur=id:key rand=R open=… seal=… -> ok B
   lsn.send B keys=[id:key] cur=id:key open=…           -> ok len=N | none   (real IP listener on loopback)
   cl.init [pool] c2s s2c | cl.request hdr rand=R seal=… | cl.response B open=… | cl.level
+  seq.run <call>+ open=…      calls whose results are all rendered after the last call:
+        d:<cookie>:<key> (Decode+Decrypt) | s:<plain> (ServerCookie.Decode) | q:<pkt>:<key> (ProcessRequest)
+        | p:<pkt>:<key>:<reqid> (ProcessResponse) | x (ExportKeys on the worker's TLS connection; not
+        modelled here — C20 — the answer only says: two distinct 32-byte keys)
+                              -> ok <r> | <r> | …   with r = ok:<algo>:<s2c>:<c2s> / ok:[cookies] / err:<e> / x:32:32:ne
 -/
 import Driver.Common
 import ScionTime.Model.Nts
@@ -106,6 +111,41 @@ def parseKeys? (s : String) : Option (List (Nat × Bytes)) :=
   let inner := ((s.drop 1).dropEnd 1).toString
   if inner = "" then some [] else (inner.splitOn ",").mapM parseIdKey?
 
+def parseCall? (s : String) : Option (Option Call) :=
+  match s.splitOn ":" with
+  | ["d", b, key] => do let b ← parseHex? b; let key ← parseHex? key; pure (some (.decrypt b key))
+  | ["s", b] => do let b ← parseHex? b; pure (some (.plain b))
+  | ["q", b, key] => do let b ← parseHex? b; let key ← parseHex? key; pure (some (.request b key))
+  | ["p", b, key, rid] => do
+    let b ← parseHex? b; let key ← parseHex? key; let rid ← parseHex? rid
+    pure (some (.response b key rid))
+  | ["x"] => some none
+  | _ => none
+
+def showResC {α : Type} (f : α → String) : Res α → String
+  | .ok a => "ok:" ++ f a
+  | .err e => "err:" ++ e.name
+  | .panic p => "panic:" ++ p.name
+  | .hang => "hang"
+
+def showCallRes : CallRes → String
+  | .cookie r => showResC (fun t => s!"{t.num}:{toHex t.x}:{toHex t.y}") r
+  | .cookies r => showResC fmtHexList r
+
+def callPanic? : CallRes → Option Pan
+  | .cookie (.panic p) => some p
+  | .cookies (.panic p) => some p
+  | _ => none
+
+/-- `seq.run`: the first panicking call takes the whole op down (as in the harness process). -/
+def seqRun (A : AEAD) (calls : List (Option Call)) : String :=
+  let rs := calls.map (fun c => c.map (Call.run A))
+  match rs.findSome? (fun r => r.bind callPanic?) with
+  | some p => "panic " ++ p.name
+  | none => "ok " ++ " | ".intercalate (rs.map fun
+      | some r => showCallRes r
+      | none => "x:32:32:ne")
+
 abbrev St := ScionTime.NtsPool.Client
 
 def init : St := {}
@@ -161,6 +201,10 @@ def stepPure (toks : List String) : Option String :=
       let cur ← (kv? toks "cur") >>= parseIdKey?
       let lookup := fun (i : Nat) => (keys.find? (·.1 = i)).map (·.2)
       some (showRes toHex (serverReply A lookup cur.1 cur.2 b hdr rnd))
+    | "seq.run" :: calls => do
+      if calls = [] then none else
+      let calls ← calls.mapM parseCall?
+      some (seqRun A calls)
     | ["lsn.send", b] => do
       let b ← parseHex? b
       let keys ← (kv? toks "keys") >>= parseKeys?
